@@ -60,15 +60,14 @@ def _scope_edits(c, ob, scan_from, name, dropcall, binder_stmt_start=None):
     last_a, last_b = stmts[-1]
     last_is_tail = c.t(last_b - 1) != ";" and last_b == cb and last_a != binder_stmt_start
     diverges = c.t(last_a) in ("return", "break", "continue")
-    if last_is_tail and not diverges and c.t(last_a) not in ("if", "match", "loop", "while", "for", "{"):
-        tail = c.text[c.pos(last_a):c.pos(cb)].rstrip()
-        edits.append((c.pos(last_a), c.pos(cb),
-                      "let __raii_tail_%s = %s;\n%s\n__raii_tail_%s\n" % (name, tail, dropcall, name)))
-    elif last_is_tail and not diverges:
-        # block-like tail expression: bind its value, drop, yield the value
-        tail = c.text[c.pos(last_a):c.pos(cb)].rstrip()
-        edits.append((c.pos(last_a), c.pos(cb),
-                      "let __raii_tail_%s = %s;\n%s\n__raii_tail_%s\n" % (name, tail, dropcall, name)))
+    if last_is_tail and not diverges:
+        # tail expression (block-like or not): bind its value, drop, yield the value.  Exits inside the tail expression
+        # (a `return` in a match arm) are rewritten first, inside the text that is then wrapped.
+        t0, t1 = c.pos(last_a), c.pos(cb)
+        inner = [(a - t0, b - t0, r) for (a, b, r) in edits if t0 <= a and b <= t1]
+        edits = [e for e in edits if not (t0 <= e[0] and e[1] <= t1)]
+        tail = apply_edits(c.text[t0:t1], inner).rstrip()
+        edits.append((t0, t1, "let __raii_tail_%s = %s;\n%s\n__raii_tail_%s\n" % (name, tail, dropcall, name)))
     elif not diverges:
         edits.append((c.pos(cb), c.pos(cb), dropcall + "\n"))
     return edits
